@@ -910,6 +910,10 @@ def churn_strategy(max_steps):
 # framework API
 
 
+# coverage-guided stage (atheris drives these Hypothesis shards, see vf/run.py): {tier: {shard kind: (shards, executions)}}
+CG = {'thorough': {'hist': (6, 2500)}}
+
+
 def plan(tier, seed, scale=1.0):
     b = BOUNDS[tier]
     specs = []
